@@ -1167,6 +1167,13 @@ class Engine:
             return
         if isinstance(target, ast.Attribute):
             base = self.ev(target.value, fr)
+            if base.k == "V" and isinstance(target.value, ast.Name) and z3.is_app(base.t) and base.t.decl().name() in (
+                    "ext:copy.deepcopy/1", "ext:copy.copy/1") or (base.k == "V" and isinstance(target.value, ast.Name) and z3.is_app(base.t)
+                                                                   and base.t.decl().name().startswith("with_attr:")):
+                # attribute assignment on a fresh private copy held in a local: functional update (no alias can observe it)
+                f = z3.Function(f"with_attr:{target.attr}", V, V, V)
+                st.env[target.value.id] = mk_V(f(base.t, self.as_V(val)))
+                return
             if base.k != "obj":
                 raise Unsupported("attribute store on non-object")
             self.heap_set(st, base, target.attr, val, fr)
